@@ -34,7 +34,7 @@ extern "C" void votca_verif_event(int kind, const void *, long arg) {
   if (kind >= 10 && kind <= 21 && kind != 17) child_event("H " + std::to_string(kind) + " " + std::to_string(arg));
 }
 
-static void child_main(int me, const std::string &dir, int cache, int maxjobs) {
+static void child_main(int me, const std::string &dir, int cache, int maxjobs, const std::string &restart = "", bool failRule = false) {
   g_me = me;
   std::streambuf *old = std::cout.rdbuf();
   std::ostringstream sink;
@@ -43,7 +43,7 @@ static void child_main(int me, const std::string &dir, int cache, int maxjobs) {
     ProgObserver<std::vector<Job>> obs;
     po::options_description desc;
     desc.add_options()("file", po::value<std::string>())("cache", po::value<Index>())("maxjobs", po::value<Index>())("restart", po::value<std::string>());
-    std::vector<std::string> av = {"--file", dir + "/lock", "--cache", std::to_string(cache), "--maxjobs", std::to_string(maxjobs), "--restart", ""};
+    std::vector<std::string> av = {"--file", dir + "/lock", "--cache", std::to_string(cache), "--maxjobs", std::to_string(maxjobs), "--restart", restart};
     po::variables_map vm;
     po::store(po::command_line_parser(av).options(desc).run(), vm);
     po::notify(vm);
@@ -57,10 +57,15 @@ static void child_main(int me, const std::string &dir, int cache, int maxjobs) {
       if (!job) break;
       child_event("X " + std::to_string(job->getId()));
       Job::JobResult res;
-      res.setStatus(Job::COMPLETE);
       tools::Property out;
-      out.add("output", "").add("by", std::to_string(me));
-      res.setOutput(out);
+      if (failRule && (me + job->getId()) % 4 == 0) {
+        res.setStatus(Job::FAILED);
+        res.setError("f" + std::to_string(me));
+      } else {
+        res.setStatus(Job::COMPLETE);
+        out.add("output", "").add("by", std::to_string(me));
+        res.setOutput(out);
+      }
       obs.ReportJobDone(*job, res, worker);
     }
     obs.SyncWithProgFile(master);
@@ -98,7 +103,35 @@ static std::string file_state(const std::string &file) {
   return o.str();
 }
 
-struct RunCfg { int P, J, cache, maxjobs; int crashProc, crashAt; };
+// restart scenarios: history kind per job, restart pattern / cache / maxjobs per process
+static const char *PATTERNS[] = {"", "host(old:1)", "stat(FAILED)", "host(old:2) stat(FAILED)", "host(old:1,old:2)"};
+struct RunCfg { int P, J, cache, maxjobs; int crashProc, crashAt; bool restart = false; bool failRule = false;
+                std::vector<int> pcache, pmax, ppat, hist; };
+
+static std::string file_state_full(const std::string &file, const std::vector<pid_t> &pids) {
+  std::ostringstream o;
+  try {
+    std::vector<Job> jobs = LOAD_JOBS(file);
+    o << jobs.size();
+    for (Job &j : jobs) {
+      std::string by = "-", err = "-", host = "-";
+      if (j.hasOutput()) { try { by = j.getOutput().get("by").as<std::string>(); } catch (...) { by = "?"; } }
+      if (j.hasError()) err = j.getError();
+      if (j.hasHost()) {
+        host = j.getHost();
+        if (host.rfind("old:", 0) != 0) {
+          size_t c = host.rfind(':');
+          long pid = c == std::string::npos ? -1 : atol(host.c_str() + c + 1);
+          host = "?";
+          for (size_t k = 0; k < pids.size(); k++) if (pids[k] == pid) host = "p" + std::to_string(k);
+        }
+      }
+      o << " " << j.getId() << ";" << j.getStatusStr() << ";" << host << ";" << by << ";" << err;
+    }
+  } catch (...) { o << "UNPARSEABLE"; }
+  return o.str();
+}
+
 
 // one complete run; choices drive the interleaving
 static std::string run_once(const RunCfg &c, Rng &r) {
@@ -107,7 +140,16 @@ static std::string run_once(const RunCfg &c, Rng &r) {
   {
     std::ofstream f(dir + "/jobs.xml");
     f << "<jobs>\n";
-    for (int j = 0; j < c.J; j++) f << "\t<job>\n\t\t<id>" << j << "</id>\n\t\t<tag>t" << j << "</tag>\n\t\t<input>x</input>\n\t\t<status>AVAILABLE</status>\n\t</job>\n";
+    for (int j = 0; j < c.J; j++) {
+      int k = c.restart ? c.hist[j] : 0;
+      f << "\t<job>\n\t\t<id>" << j << "</id>\n\t\t<tag>t" << j << "</tag>\n\t\t<input>x</input>\n";
+      if (k == 0) f << "\t\t<status>AVAILABLE</status>\n";
+      else if (k == 1) f << "\t\t<status>COMPLETE</status>\n\t\t<host>old:1</host>\n\t\t<time>00:00:01</time>\n\t\t<output><by>old1</by></output>\n";
+      else if (k == 2) f << "\t\t<status>COMPLETE</status>\n\t\t<host>old:2</host>\n\t\t<time>00:00:02</time>\n\t\t<output><by>old2</by></output>\n";
+      else if (k == 3) f << "\t\t<status>FAILED</status>\n\t\t<host>old:1</host>\n\t\t<time>00:00:03</time>\n\t\t<error>eold1</error>\n";
+      else f << "\t\t<status>ASSIGNED</status>\n\t\t<host>old:2</host>\n\t\t<time>00:00:04</time>\n";
+      f << "\t</job>\n";
+    }
     f << "</jobs>\n";
     std::ofstream l(dir + "/lock");
   }
@@ -120,6 +162,7 @@ static std::string run_once(const RunCfg &c, Rng &r) {
       close(up[0]); close(down[1]);
       g_up = up[1]; g_down = down[0];
       for (int k = 0; k < i; k++) { close(ch[k].up); close(ch[k].down); }
+      if (c.restart) child_main(i, dir, c.pcache[i], c.pmax[i], PATTERNS[c.ppat[i]], c.failRule);
       child_main(i, dir, c.cache, c.maxjobs);
     }
     close(up[1]); close(down[0]);
@@ -153,6 +196,9 @@ static std::string run_once(const RunCfg &c, Rng &r) {
     }
   };
   int idle_rounds = 0;
+  int last_pick = -1;
+  static const double sticks[] = {0.0, 0.8, 0.95, 0.99, 0.99};
+  double stick = sticks[r.below(5)];
   while (true) {
     bool any = false;
     for (auto &x : ch) any = any || x.alive;
@@ -172,6 +218,9 @@ static std::string run_once(const RunCfg &c, Rng &r) {
     ready.clear();
     for (int i = 0; i < c.P; i++) if (ch[i].alive && ch[i].waiting) ready.push_back(i);
     int pick = ready[r.below(ready.size())];
+    // sticky scheduling: long bursts of one process (a whole synchronisation, or several, while the others stand still)
+    if (last_pick >= 0 && r.unit() < stick) for (int q : ready) if (q == last_pick) pick = q;
+    last_pick = pick;
     Child &x = ch[pick];
     std::vector<std::string> t = split_ws(x.pending);
     std::string tag = t[0] == "H" ? "h" + t[1] + (t[1] == "21" ? "." + t[2] : "") : t[0] == "X" ? "x" + t[1] : "fin";
@@ -197,6 +246,18 @@ static std::string run_once(const RunCfg &c, Rng &r) {
   }
   for (auto &x : ch) { if (x.alive) { kill(x.pid, SIGKILL); int st; waitpid(x.pid, &st, 0); } close(x.up); close(x.down); }
   std::ostringstream o;
+  if (c.restart) {
+    std::vector<pid_t> pids;
+    for (auto &x : ch) pids.push_back(x.pid);
+    o << "C10 rrun " << c.P << " " << c.J << " " << (c.failRule ? 1 : 0) << " |";
+    for (int i = 0; i < c.P; i++) o << " " << c.pcache[i] << " " << c.pmax[i] << " " << c.ppat[i];
+    o << " |";
+    for (int j = 0; j < c.J; j++) o << " " << c.hist[j];
+    o << " |" << trace.str() << " | " << file_state_full(dir + "/jobs.xml", pids);
+    std::string cmd = "rm -rf " + dir;
+    if (system(cmd.c_str())) {}
+    return o.str();
+  }
   o << "C10 run " << c.P << " " << c.J << " " << c.cache << " " << c.maxjobs << " " << c.crashProc << " " << c.crashAt << " |" << trace.str()
     << " | " << crashInfo << " | " << file_state(dir + "/jobs.xml");
   std::string cmd = "rm -rf " + dir;
@@ -213,9 +274,35 @@ int main(int argc, char **argv) {
     std::string line;
     while (std::getline(std::cin, line)) {
       std::vector<std::string> t = split_ws(line);
+      if (t.size() >= 8 && t[0] == "C10" && t[1] == "rrun") {
+        RunCfg c{atoi(t[2].c_str()), atoi(t[3].c_str()), 1, 1000, -1, -1};
+        c.restart = true; c.failRule = t[4] == "1";
+        size_t k = 6;
+        for (int i = 0; i < c.P && k + 2 < t.size(); i++, k += 3) { c.pcache.push_back(atoi(t[k].c_str())); c.pmax.push_back(atoi(t[k + 1].c_str())); c.ppat.push_back(atoi(t[k + 2].c_str())); }
+        k++;
+        for (int j = 0; j < c.J && k < t.size(); j++, k++) c.hist.push_back(atoi(t[k].c_str()));
+        if ((int)c.pcache.size() != c.P || (int)c.hist.size() != c.J) continue;
+        for (int rep = 0; rep < 40; rep++) printf("%s\n", run_once(c, r).c_str());
+        continue;
+      }
       if (t.size() < 8 || t[0] != "C10") continue;
       RunCfg c{atoi(t[2].c_str()), atoi(t[3].c_str()), atoi(t[4].c_str()), atoi(t[5].c_str()), atoi(t[6].c_str()), atoi(t[7].c_str())};
       for (int k = 0; k < 40; k++) printf("%s\n", run_once(c, r).c_str());
+    }
+    return 0;
+  }
+  if (mode == "restart") {
+    for (long i = 0; i < N; i++) {
+      RunCfg c{1 + (int)r.below(3), 2 + (int)r.below(7), 1, 1000, -1, -1};
+      c.restart = true; c.failRule = r.coin(1, 3);
+      for (int p = 0; p < c.P; p++) {
+        c.pcache.push_back(1 + (int)r.below(3));
+        c.pmax.push_back(r.coin(1, 4) ? 1 + (int)r.below(3) : 1000);
+        c.ppat.push_back(r.coin(1, 3) ? 0 : 1 + (int)r.below(4));
+      }
+      for (int j = 0; j < c.J; j++) c.hist.push_back(r.coin(1, 3) ? 0 : 1 + (int)r.below(4));
+      printf("%s\n", run_once(c, r).c_str());
+      fflush(stdout);
     }
     return 0;
   }
